@@ -21,11 +21,14 @@ TrBuild  == IsEvent("Build") /\ BuildS(Ev.args.pkt) /\ Ev.wf
 \* oracle: it must be exactly the oracle's serialisation
 TrFeed   == IsEvent("Feed") /\ FeedS(Ev.args.pkt) /\ Ev.wf
             /\ Ev.args.wire.hdr = last'.args.wire.hdr /\ Ev.args.wire.pay = last'.args.wire.pay
-TrPack   == IsEvent("Pack") /\ Pack /\ Ev.wf
-            /\ Ev.obs.hdr = last'.exp.hdr /\ Ev.obs.pay = last'.exp.pay
+\* (free-form stacks: the recorded bytes themselves are judged - PackAs / RepackAs)
+TrPack   == IsEvent("Pack") /\ Ev.wf
+            /\ IF FreeForm(pkt) THEN Ev.obs.pay = 0 /\ PackAs(Ev.obs.hdr)
+               ELSE Pack /\ Ev.obs.hdr = last'.exp.hdr /\ Ev.obs.pay = last'.exp.pay
 TrParse  == IsEvent("Parse") /\ Parse /\ Ev.wf /\ Ev.obs.view = last'.exp.view
-TrRepack == IsEvent("Repack") /\ Repack /\ Ev.wf
-            /\ Ev.obs.hdr = last'.exp.hdr /\ Ev.obs.pay = last'.exp.pay
+TrRepack == IsEvent("Repack") /\ Ev.wf
+            /\ IF FreeForm(dec) THEN Ev.obs.pay = 0 /\ RepackAs(Ev.obs.hdr)
+               ELSE Repack /\ Ev.obs.hdr = last'.exp.hdr /\ Ev.obs.pay = last'.exp.pay
 
 TrNext == TrBuild \/ TrFeed \/ TrPack \/ TrParse \/ TrRepack
 TrSpec == TrInit /\ [][TrNext]_tvars
